@@ -120,6 +120,7 @@ class Buffer:
 
 
 WRITE_LOG: list = []
+CONV_LOG: list = []  # (buffer, target unit | None, target dtype | None) of every to/astype/to_unit(copy=False)
 ALIAS_LOG: list = []  # (kind, var) for to/astype(copy=False) that returned the operand
 
 
@@ -352,6 +353,8 @@ class Variable:
     # ---------------------------------------------------------------- conversion
     def astype(self, dtype, *, copy=True):
         dt = as_dtype(dtype)
+        if not copy:
+            CONV_LOG.append((self._buf, None, dt))
         if dt == self._dtype:
             if not copy:
                 ALIAS_LOG.append(('astype', self))
@@ -1202,6 +1205,8 @@ def _into(out, r: Variable):
 
 def to_unit(v: Variable, unit, *, copy=True):
     unit = parse_unit(unit)
+    if not copy:
+        CONV_LOG.append((v._buf, unit, None))
     if v._bins is not None:
         from .bins import binned_unary
 
